@@ -28,6 +28,9 @@ RULE = ("every ordered pair of nodes of every shape up to N nodes (quick 5, thor
 
 
 def generate(tier, rng):
+    # far deeper than the interpreter's recursion limit: what is defined by walking the parent links must not recurse per level
+    for depth in ([1500] if tier == "quick" else [1500, 3000]):
+        yield {"fam": "deepchain", "depth": depth, "cls": rng.choice(["nm", "light", "node"]), "what": "walk"}
     nmax = 5 if tier == "quick" else 7
     for n in range(1, nmax + 1):
         for sh in gen.shapes(n):
@@ -55,4 +58,12 @@ def generate(tier, rng):
 
 
 def nontrivial(case):
+    if case.get("fam") == "deepchain":
+        return True
     return gen.tree_size(case["trees"][0]) >= 3
+
+
+def judge(case, impl, drv):
+    if case.get("fam") == "deepchain":
+        return impl == {"ok": True}, True
+    return impl == drv["spec"], impl == drv["mirror"]
